@@ -23,6 +23,13 @@ FIXED = [
     ("loop", "var g; proc main() is var i; { g := 0; i := 0; while i < 20 do { g := g + i; i := i + 1 }; 0(g) }", b""),
     ("rec", "func f(val n) is if n <= 0 then return 0 else return n + f(n - 1) proc main() is 0(f(12))", b""),
     ("arr", "array a[5]; proc main() is var i; { i := 0; while i < 5 do { a[i] := i + i; i := i + 1 }; 1(a[4] + 48, 0); 0(a[3]) }", b""),
+    # input that runs out, bytes >= 0x80, reads at a stack depth nothing has written yet, a file stream without a file:
+    # what a read delivers then is defined (end of input), so it must not depend on the power-on state either
+    ("eof", "val put = 1; val get = 2; proc main() is { put(get(0), 0); put(get(0), 0); put(get(0) - 190, 0); 0(3) }", b"x"),
+    ("empty", "val get = 2; proc main() is var c; { c := get(0); if c = 255 then 0(7) else if c = 65 then 0(8) else 0(9) }", b""),
+    ("high", "val put = 1; val get = 2; proc main() is var c; { c := get(0); put(c, 0); c := get(0); if c < 128 then 0(1) else 0(2) }", b"\xff\x80"),
+    ("deep", "val get = 2; func r(val n) is if n <= 0 then return get(0) + get(0) else return r(n - 1) + 1 proc main() is 0(r(9))", b"A"),
+    ("nofile", "val put = 1; val get = 2; proc main() is var c; { c := get(256); put(c - 200, 0); 0(get(512) - 250) }", b""),
 ]
 
 
